@@ -25,6 +25,7 @@ from ..model import FuncInfo, attr_chain, norm, walk_no_nested
 from ..report import Checker
 from .forward import forward_sites_check
 from .c15 import body_or_chunks_check, content_length_check
+from .c03 import chunk_decoder_checks
 
 
 def pipeline_reset_check(ch: Checker, rule: str) -> None:
@@ -70,6 +71,8 @@ def run(ch: Checker) -> None:
     ch.rule('C02.3', 'rebuild framing: chunk-framed iff chunked and body not None; Content-Length = len(emitted body) under the case-insensitive transfer-encoding scan', 3)
     ch.rule('C02.4', 'build_http_pkt: JOIN(line, SP) CRLF, then for every header in map order name ": " value CRLF, then CRLF, then the body when non-empty', 1)
     ch.rule('C02.5', '_process_header: key/value are the stripped sides of the first-colon split; add_header stores (key, value) under key.lower()', 2)
+    ch.rule('C02.7', 'chunked request bodies are decoded independently of segmentation preconditions (shared with C03): size line searched in held+new bytes, chunk data added '
+                     'piece[:missing] / piece[missing:], no unchecked fixed-width skip, no chunk completed without its CRLF', 3)
     ch.rule('C02.6', 'the follow-up (pipeline) request parser is reset to None only where the request is complete', 2)
 
     forward_sites_check(ch, 'C02.1', want_via=True, via_rule='C02.1b')
@@ -219,3 +222,4 @@ def run(ch: Checker) -> None:
 
     # ---------------- C02.6
     pipeline_reset_check(ch, 'C02.6')
+    chunk_decoder_checks(ch, 'C02.7', 'C02.7', 'C02.7')
